@@ -214,6 +214,14 @@ def load_pair(case, store, chunk_info, stored, vfw, kw):
     return out
 
 
+def l1_short_applies(case):
+    """the attached flags stream stops one time chunk early - only when another array still spans all the dumps, so
+    that the data set keeps its length (the L0 flags it replaces may have been the only full-length array)"""
+    l1 = (case.get('src_opts') or {}).get('l1') or {}
+    return bool(l1.get('short')) and len(case['chunks']['flags'][0]) >= 2 and \
+        max(n for a, n in case['dumps'].items() if a != 'flags') == case['T']
+
+
 def l1_flags_array(case):
     rs = np.random.RandomState(case['src_opts']['l1']['seed'])
     T, F, B = case['T'], case['F'], case['B']
@@ -253,7 +261,7 @@ def load_via_source(case, store, chunk_info, prefix, tmp):
             arr = l1_flags_array(case)
             ch = tuple(tuple(c) for c in case['chunks']['flags'])
             l1_missing = l1['missing']
-            if l1.get('short') and len(ch[0]) >= 2:
+            if l1_short_applies(case):
                 # whole trailing dumps missing from the attached flags stream: it has fewer dumps than the L0 stream
                 arr = arr[:arr.shape[0] - ch[0][-1]]
                 l1_missing = [g for g in l1_missing if g[0] < len(ch[0]) - 1]
@@ -482,7 +490,7 @@ def evaluate(ctx, cases):
                 if l1:
                     ctx.tag('via-source-l1-flags' + ('-legacy-layout' if l1['legacy'] else ''))
                     l1m = l1['missing']
-                    if l1.get('short') and len(c['chunks']['flags'][0]) >= 2:
+                    if l1_short_applies(c):
                         ctx.tag('via-source-l1-flags-fewer-dumps')
                         last = len(c['chunks']['flags'][0]) - 1
                         l1m = [g for g in l1m if g[0] < last] + [
